@@ -118,7 +118,7 @@ def first_diff_owner(case):
 
 def oracle_c01(case):
     v, obs = case.v, case.obs
-    if v.kind == "IRREGULAR":
+    if v.kind == "IRREGULAR" or obs.verdict == "SKIPPED":
         return []
     if v.kind == "VALID":
         if obs.verdict == "ACC":
@@ -140,6 +140,8 @@ def oracle_c01(case):
 def oracle_c02(case):
     obs = case.obs
     out = []
+    if obs.verdict == "SKIPPED":
+        return out
     nl = case.text.count(b"\n")
     if obs.verdict == "HANG":
         owner, _ = None, None
@@ -657,6 +659,10 @@ SUFFIXES = ((";",), ("}",), ("foo",), ("RAW:&",))
 def oracle_c18(case):
     obs, v = case.obs, case.v
     if obs.verdict != "REJ" or v.kind != "INVALID":
+        return []
+    if v.irregular:
+        # an irregularity (omitted arguments, repeated tag, ...) precedes the reference's first invalid token: the
+        # implementation may legitimately stop there already, the properties make no claim about such prefixes
         return []
     ep = obs.error_pos
     if not (isinstance(ep, tuple) and len(ep) == 3 and all(type(x) is int for x in ep)):
